@@ -67,7 +67,14 @@ def cases(tier, seed):
     out = [{"kind": "kallen", "what": "symmetry", "seed": seed},
            {"kind": "kallen", "what": "factorisation", "seed": seed},
            {"kind": "kallen", "what": "symbolic", "seed": seed}]
+    configs = list(dalitz.mass_configs())
+    # the same decays in other units (the statement quantifies over ALL mass
+    # configurations: nothing may depend on the absolute scale)
     for name, masses in dalitz.mass_configs():
+        if name in {"generic-a", "one-massless(1)", "heavy-spectator(2)"}:
+            for scale, tag in ((1e-3, "x1e-3"), (1e3, "x1e3")):
+                configs.append((f"{name}{tag}", [m * scale for m in masses]))
+    for name, masses in configs:
         out.append({"kind": "events", "cfg": name, "masses": masses, "tier": tier,
                     "seed": seed})
         for ov in OUTSIDE:
